@@ -25,6 +25,18 @@ VOCAB = ['do_return', 'retval_', 'break_', 'continue_', 'get_state', 'set_state'
          'get_state_1', 'loop_body_2', 'break__1']
 
 KNOWN_AG = 'user-name-equals-fixed-alias-ag__'
+# shapes the random generator does not produce: names bound by except clauses, parameters of lambdas
+TEMPLATES = [
+    'def f(a, b, c):\n    try:\n        raise E0()\n    except E0 as {n}:\n        if D(2):\n            return T(3)\n    return T(4)\n',
+    'def f(a, b, c):\n    for i in L(1):\n        try:\n            raise E1()\n        except E1 as {n}:\n            if D(3):\n                continue\n'
+    '            if D(4):\n                break\n        T(5, i)\n    return T(6)\n',
+    'def f(a, b, c):\n    x = T(1)\n    try:\n        if D(2):\n            raise E2()\n    except E2 as {n}:\n        x = T(3, x)\n    while D(4):\n'
+    '        if D(5):\n            return T(6, x)\n        x = T(7, x)\n    return x\n',
+    'f = lambda {n}, b, c: T(1, {n}, b)\n',
+    'f = lambda a, b, {n}=5: (T(1, {n}), T(2, a))\n',
+]
+TEMPLATE_NAMES = ['do_return', 'retval_', 'break_', 'continue_', 'lscope', 'fscope', 'lscope_1', 'get_state', 'loop_body', 'itr']
+
 GLOBALS_PRELUDE = '\n' + '\n'.join('%s = %d' % (n, 1001 + i) for i, n in enumerate(
     ['get_state', 'set_state', 'if_body', 'else_body', 'loop_body', 'loop_test', 'itr', 'do_return', 'retval_', 'fscope'])) + '\n'
 
@@ -128,6 +140,7 @@ def check(run):
     failures = []
     nprog = 70 if quick else 700
     srcs = []
+    skinds = []
     for it in range(nprog):
         names = rnd.sample(VOCAB, 4)
         opts = progs.Opts(loop_else=False, reads='safe', names=names, max_stmts=12, fresh_for_targets=rnd.random() < 0.7,
@@ -139,6 +152,7 @@ def check(run):
             opts.nested_global_reads = ['get_state', 'set_state', 'if_body', 'else_body', 'loop_body', 'loop_test', 'itr',
                                         'do_return', 'retval_', 'fscope']
             opts.max_depth = 3
+        skinds.append('nested_global_reads' if it % 3 == 0 else 'plain')
         src = progs.gen_function(rnd, opts)
         # parameters from the vocabulary as well
         ps = rnd.sample(VOCAB, 3)
@@ -152,11 +166,21 @@ def check(run):
                 first, rest = open(os.path.join(cdir, fnm)).read().split('\n', 1)
                 csrcs.append(rest)
                 cvecs.append(eval(first.split(':', 1)[1]))
+    tsrcs = [t.replace('{n}', n) for t in TEMPLATES for n in (TEMPLATE_NAMES if not quick else rnd.sample(TEMPLATE_NAMES, 5) + ['do_return', 'lscope'])]
+    srcs = tsrcs + srcs
     allsrc = csrcs + srcs
+    kinds = ['corpus'] * len(csrcs) + ['template'] * len(tsrcs) + skinds
     naming.Namer.new_symbol = spy
     try:
-        mod = convrun.load_module(allsrc, c01.PRELUDE + GLOBALS_PRELUDE)
+        # module globals named like generated symbols only for the programs that read them from nested functions:
+        # elsewhere they would make the Namer avoid exactly the names under test
+        uses_globals = [('nested_global_reads' in kind) for kind in kinds]
+        modg = convrun.load_module([s_ if u else 'def f(a, b, c):\n    return 0\n' for s_, u in zip(allsrc, uses_globals)],
+                                   c01.PRELUDE + GLOBALS_PRELUDE)
+        modp = convrun.load_module([s_ if not u else 'def f(a, b, c):\n    return 0\n' for s_, u in zip(allsrc, uses_globals)],
+                                   c01.PRELUDE)
         for i, src in enumerate(allsrc):
+            mod = modg if uses_globals[i] else modp
             f = getattr(mod, 'f%d' % i)
             idents = set(n.id for n in ast.walk(ast.parse(src)) if isinstance(n, ast.Name)) | \
                 set(a.arg for n in ast.walk(ast.parse(src)) if isinstance(n, ast.arguments) for a in n.args)
